@@ -841,7 +841,10 @@ type ProposalMessage struct {
 
 // ValidateBasic performs basic validation.
 func (m *ProposalMessage) ValidateBasic() error {
-	return nil
+	if m.Proposal == nil {
+		return fmt.Errorf("nil proposal")
+	}
+	return m.Proposal.ValidateBasic()
 }
 
 // ProposalPOLMessage is sent when a previous proposal is re-proposed.
